@@ -166,6 +166,14 @@ func buildFacts(fn *ssa.Function) *factInfo {
 		if br, ok := b.Instrs[len(b.Instrs)-1].(*ssa.If); ok {
 			feeds[condBase(br.Cond)] = true
 		}
+		// what a function returns on a path is of interest to the rules as well
+		if ret, ok := b.Instrs[len(b.Instrs)-1].(*ssa.Return); ok {
+			for _, r := range ret.Results {
+				if _, isPhi := r.(*ssa.Phi); isPhi {
+					feeds[r] = true
+				}
+			}
+		}
 	}
 	// a phi feeding a tested phi is tested too
 	for changed := true; changed; {
@@ -238,6 +246,13 @@ func buildFacts(fn *ssa.Function) *factInfo {
 			if br, ok := b.Instrs[len(b.Instrs)-1].(*ssa.If); ok {
 				if base := condBase(br.Cond); fx.tracked[base] {
 					uses[base] = append(uses[base], b)
+				}
+			}
+			if ret, ok := b.Instrs[len(b.Instrs)-1].(*ssa.Return); ok {
+				for _, r := range ret.Results {
+					if fx.tracked[r] {
+						uses[r] = append(uses[r], b)
+					}
 				}
 			}
 		}
